@@ -306,5 +306,10 @@ func zzMember(d int, path string, s *zzSpec, required bool, n int) zzFacets {
 	if required && !s.hasDefault {
 		rf.req = zzvrt.Not(absent)
 	}
+	if required && s.hasDefault {
+		// a required key with a default that is absent: invalid under the schema (C02 says
+		// nothing), exempt from C04 ("and not given a default"), not C09's case (optional): no promise
+		rf.dontCare = absent
+	}
 	return f.and(rf)
 }
